@@ -78,7 +78,7 @@ var concurrentCheck = &core.Check{Name: "c14/concurrent", Quick: 1, Thorough: 60
 	c.Note("goroutines", workers)
 	c.Note("rounds", rounds)
 	c.NonTrivial(workers, rounds, procs, sets[0][0].want)
-	return core.Parallel(workers, rounds, procs, func(w, r int) error {
+	if err := core.Parallel(workers, rounds, procs, func(w, r int) error {
 		j := sets[w][r%per]
 		got, err := send(j)
 		if err != nil {
@@ -88,7 +88,103 @@ var concurrentCheck = &core.Check{Name: "c14/concurrent", Quick: 1, Thorough: 60
 			return fmt.Errorf("%v %v seqno %d, %d messages: the external message sent is %x, on one goroutine the same send produced %x", j.vp.Ref, j.opts, j.seqno, len(j.msgs), got, j.want)
 		}
 		return nil
-	})
+	}); err != nil {
+		return err
+	}
+	// one wallet object used by all goroutines at once (a service holds one wallet and sends from its request
+	// handlers): every goroutine sends its own message list, long for the versions that carry long lists, with
+	// its own seqno and expiry through the shared object; the payloads that reach the chain are, as a multiset,
+	// the ones fresh wallet objects produced for the same requests on one goroutine
+	type shared struct {
+		vp    wtest.VersionPair
+		key   ed25519.PrivateKey
+		opts  wtest.Opts
+		chain *wtest.Chain
+		w     wallet.Wallet
+		jobs  []*job // one per goroutine
+	}
+	var shs []*shared
+	for vi := range wtest.SendVersions {
+		sh := &shared{vp: wtest.SendVersions[vi], key: wtest.DrawKey(c, "shared.key"), opts: wtest.DrawOpts(c), chain: &wtest.Chain{State: wtest.StateNone()}}
+		lib, err := wallet.New(sh.key, sh.vp.Lib, sh.chain, sh.opts.Lib...)
+		if err != nil {
+			return fmt.Errorf("wallet.New: %v", err)
+		}
+		sh.w = lib
+		n := sh.vp.Ref.MaxMessages()
+		if n > 100 {
+			n = 100
+		}
+		deterministic := true
+		for w := 0; w < workers && deterministic; w++ {
+			j := &job{vp: sh.vp, key: sh.key, opts: sh.opts, seqno: uint32(1000*w + vi), expiry: time.Unix(int64(1700000000+c.Intn("shared.expiry", 1<<30)), 0)}
+			r := seedRnd{core.NewSplitMix(c.U64("shared.messages.seed"))}
+			for i := 0; i < n; i++ {
+				j.msgs = append(j.msgs, drawMsg(r, true))
+			}
+			want, err := send(j)
+			if err != nil {
+				return fmt.Errorf("%v %v with %d messages on one goroutine: %v", j.vp.Ref, j.opts, n, err)
+			}
+			again, err := send(j)
+			if err != nil || !bytes.Equal(want, again) {
+				deterministic = false
+				break
+			}
+			j.want = want
+			sh.jobs = append(sh.jobs, j)
+		}
+		if deterministic {
+			shs = append(shs, sh)
+		}
+	}
+	if len(shs) == 0 {
+		return fmt.Errorf("HARNESS: no version with deterministic output")
+	}
+	c.Class("one wallet object shared by all goroutines")
+	sharedRounds := 16 * len(shs)
+	if err := core.Parallel(workers, sharedRounds, procs, func(w, r int) error {
+		sh := shs[r%len(shs)]
+		j := sh.jobs[w]
+		var raws []wallet.RawMessage
+		for i := range j.msgs {
+			raws = append(raws, wallet.RawMessage{Message: wtest.MustCell(j.msgs[i].raw), Mode: j.msgs[i].mode})
+		}
+		if err := sh.w.RawSend(context.Background(), j.seqno, j.expiry, raws, nil); err != nil {
+			return fmt.Errorf("%v %v: RawSend through a wallet object that other goroutines use too: %v (the same send worked through a wallet object of its own)", j.vp.Ref, j.opts, err)
+		}
+		return nil
+	}); err != nil {
+		return err
+	}
+	for _, sh := range shs {
+		want := map[string]int{}
+		who := map[string]int{}
+		for w, j := range sh.jobs {
+			want[string(j.want)] += sharedRounds / len(shs)
+			who[string(j.want)] = w
+		}
+		sent, _ := sh.chain.Snapshot()
+		for _, p := range sent {
+			if want[string(p)] == 0 {
+				return fmt.Errorf("%v %v: %d goroutines sent %d messages each through one wallet object; a payload reached the chain that none of them asked for (or more often than asked): %x\nthe requests, sent through wallet objects of their own, produce e.g. %x", sh.vp.Ref, sh.opts, workers, len(sh.jobs[0].msgs), trunc14(p), trunc14(sh.jobs[0].want))
+			}
+			want[string(p)]--
+		}
+		for k, n := range want {
+			if n != 0 {
+				return fmt.Errorf("%v %v: the payload goroutine %d asked for did not reach the chain (%d missing) although every RawSend returned success", sh.vp.Ref, sh.opts, who[k], n)
+			}
+		}
+	}
+	return nil
 }}
+
+func trunc14(b []byte) []byte {
+	if len(b) > 400 {
+		return b[:400]
+	}
+	return b
+}
 
 func TestConcurrent(t *testing.T) { core.Run(t, concurrentCheck) }
